@@ -715,15 +715,15 @@ impl<W: Write> Print<W> for TextPrinter {
 //@@ rewrite write_macros
 //@@ endfn
 //@@ fn textprint.print_f64 = src/output_style.rs :: impl<W: Write> Print<W> for TextPrinter :: fn print_f64
-//@@ safety C15
+//@@ safety C15 C19
 //@@ rewrite write_macros
 //@@ endfn
 //@@ fn textprint.print_u64 = src/output_style.rs :: impl<W: Write> Print<W> for TextPrinter :: fn print_u64
-//@@ safety C15
+//@@ safety C15 C19
 //@@ rewrite write_macros
 //@@ endfn
 //@@ fn textprint.print_i64 = src/output_style.rs :: impl<W: Write> Print<W> for TextPrinter :: fn print_i64
-//@@ safety C15
+//@@ safety C15 C19
 //@@ rewrite write_macros
 //@@ endfn
 //@@ fn textprint.print_string = src/output_style.rs :: impl<W: Write> Print<W> for TextPrinter :: fn print_string
@@ -871,18 +871,109 @@ impl Process for TextProcess {
 //@@ enditem
 //@@ item src/output_style.rs :: enum OutputStyleValidationError
 //@@ enditem
-// constructors of the text printer: not under contract (escape-map construction slices strings by bytes)
+// ---- constructors of the text printer
+pub mod vstr {
+use vstd::prelude::*;
+#[verifier::external_body]
+pub fn string_of(x: &str) -> (r: String) ensures r@ == x@ { unimplemented!() }
+}
+pub mod vs2 {
+use vstd::prelude::*;
+use std::collections::HashMap;
+#[verifier::external_body]
+pub fn first_char(s: &String) -> (r: Option<char>) ensures r == (if s@.len() > 0 { Some(s@[0]) } else { None::<char> }) { unimplemented!() }
+// s[1..].to_string() (rewrite skip_first): byte offset 1 must be a character boundary, i.e. the first character is ASCII
+#[verifier::external_body]
+pub fn skip_first_byte(s: &String) -> (r: String)
+    requires s@.len() > 0, (s@[0] as u32) < 0x80,
+    ensures r@ == s@.subrange(1, s@.len() as int),
+{ unimplemented!() }
+#[verifier::external_body]
+pub fn skip_first_char(s: &String, c: char) -> (r: String)
+    requires s@.len() > 0, s@[0] == c,
+    ensures r@ == s@.subrange(1, s@.len() as int),
+{ unimplemented!() }
+#[verifier::external_body]
+pub fn map_with_capacity_of(v: &Vec<String>) -> (r: HashMap<char, String>) ensures r@ == Map::<char, String>::empty() { unimplemented!() }
+}
+// the escape table of the text printer: every configured sequence `cREST` maps its first character c to REST (a later entry
+// for the same character replaces an earlier one; an empty sequence configures nothing)
+pub open spec fn esc_table(seqs: Seq<String>, n: int) -> Map<char, Seq<char>>
+    decreases n
+{
+    if n <= 0 || n > seqs.len() { Map::empty() } else {
+        let m = esc_table(seqs, n - 1);
+        let v = seqs[n - 1]@;
+        if v.len() == 0 { m } else { m.insert(v[0], v.subrange(1, v.len() as int)) }
+    }
+}
+// the map holds exactly the table (compared by the texts of the replacement strings)
+pub open spec fn is_table(m: Map<char, String>, t: Map<char, Seq<char>>) -> bool {
+    forall|c: char| #![trigger m.contains_key(c)] #![trigger t.contains_key(c)] m.contains_key(c) == t.contains_key(c) && (t.contains_key(c) ==> m[c]@ == t[c])
+}
+impl vstd::std_specs::convert::FromSpecImpl<TextOutputOptions> for TextPrinter {
+    open spec fn obeys_from_spec() -> bool { false }
+    uninterp spec fn from_spec(v: TextOutputOptions) -> Self;
+}
+impl From<TextOutputOptions> for TextPrinter {
+//@@ fn textprint.from_options = src/output_style.rs :: impl From<TextOutputOptions> for TextPrinter :: fn from
+//@@ safety C15 C05
+//@@ ret r
+//@@ rewrite hashmap_with_capacity first_char skip_first skip_first_char
+//@@ header
+        ensures r.opts() == options, is_table(r.esc_map(), esc_table(options.escape_sequance@, options.escape_sequance@.len() as int)), // @obl PRINT.text.escape_table : C15
+//@@ body-start
+        broadcast use chk::axiom_char_key_model;
+//@@ loop 1 iter it
+            invariant
+                it.seq().len() == options.escape_sequance@.len(),
+                forall|j: int| 0 <= j < it.seq().len() ==> *(#[trigger] it.seq()[j]) == options.escape_sequance@[j],
+                is_table(escape_sequandes@, esc_table(options.escape_sequance@, it.index@)),
+//@@ loop-start 1
+            let ghost k = it.index@;
+            let ghost m0 = escape_sequandes@;
+            proof { assert(*v == options.escape_sequance@[k]); }
+//@@ loop-end 1
+            proof {
+                let vv = options.escape_sequance@[k]@;
+                let t0 = esc_table(options.escape_sequance@, k);
+                let t1 = esc_table(options.escape_sequance@, k + 1);
+                if vv.len() > 0 {
+                    assert(t1 == t0.insert(vv[0], vv.subrange(1, vv.len() as int)));
+                    assert forall|c: char| #![trigger escape_sequandes@.contains_key(c)] #![trigger t1.contains_key(c)] escape_sequandes@.contains_key(c) == t1.contains_key(c) && (t1.contains_key(c) ==> escape_sequandes@[c]@ == t1[c]) by {
+                        if c != vv[0] { assert(m0.contains_key(c) == t0.contains_key(c)); if t0.contains_key(c) { assert(m0[c]@ == t0[c]); } }
+                    }
+                } else { assert(t1 == t0); }
+            }
+//@@ endfn
+}
 impl TextOutputOptions {
-    #[verifier::external_body]
-    fn csv() -> (r: Self) ensures r.headers { unimplemented!() }
+//@@ fn textopts.csv = src/output_style.rs :: impl TextOutputOptions :: fn csv
+//@@ safety C15
+//@@ ret r
+//@@ rewrite lit_to_string
+//@@ header
+        ensures
+            // the csv preset: `, ` between fields, strings in double quotes with an embedded quote doubled, a header row,
+            // True / False / null, nothing for an absent value
+            r.headers && r.items_seperator@ == ", "@ && r.string_prefix@ == "\""@ && r.string_postfix@ == "\""@
+                && r.escape_sequance@.len() == 1 && r.escape_sequance@[0]@ == "\"\"\""@
+                && r.null_keyword@ == "null"@ && r.true_keyword@ == "True"@ && r.false_keyword@ == "False"@ && r.missing_value_keyword is None, // @obl PRINT.text.csv_preset : C15
+//@@ endfn
 }
 impl Default for TextOutputOptions { #[verifier::external_body] fn default() -> Self { unimplemented!() } }
 impl Default for JsonOutputOptions { #[verifier::external_body] fn default() -> Self { unimplemented!() } }
 impl Clone for TextOutputOptions { #[verifier::external_body] fn clone(&self) -> (r: Self) ensures r == *self { unimplemented!() } }
 impl Clone for JsonOutputOptions { #[verifier::external_body] fn clone(&self) -> (r: Self) ensures r == *self { unimplemented!() } }
 impl TextProcess {
-    #[verifier::external_body]
-    fn new(writer: vio::Out, line_seperator: String, options: TextOutputOptions) -> (r: Self) { unimplemented!() }
+//@@ fn textprocess.new = src/output_style.rs :: impl TextProcess :: fn new
+//@@ safety C15
+//@@ ret r
+//@@ rewrite dyn_write into_printer
+//@@ header
+        ensures r.printer.opts() == options && is_table(r.printer.esc_map(), esc_table(options.escape_sequance@, options.escape_sequance@.len() as int))
+            && r.line_seperator == line_seperator && r.length == 0, // @obl PRINT.text.new : C15
+//@@ endfn
 }
 
 impl OutputOptions {
